@@ -5,3 +5,89 @@ package metrics
 // Contracts for package metrics (comment-only; read by /verif/govc).
 
 //@ contract metrics.ConvertBoolToFloat inline
+
+// ---- C33: the metrics store reports what was recorded.
+// Abstract view of the store: the value of each named counter / gauge / up-down
+// counter / stored constant (0 when the name has never been seen).
+
+//@ spec cval(m *MultiMetrics, n string) uint64 := ite(in(m.counters, n), *asPtr(m.counters[n], *atomic.Uint64), 0)
+//@ spec uval(m *MultiMetrics, n string) int64 := ite(in(m.updowns, n), *asPtr(m.updowns[n], *atomic.Int64), 0)
+//@ spec gbits(m *MultiMetrics, n string) uint64 := ite(in(m.gauges, n), *asPtr(m.gauges[n], *atomic.Uint64), 0)
+//@ spec sbits(m *MultiMetrics, n string) uint64 := ite(in(m.stores, n), *asPtr(m.stores[n], *atomic.Uint64), 0)
+
+// Representation invariant: every cell is of the expected dynamic type, non-nil,
+// allocated before this call, and no two names share a cell.
+//@ spec cellsOK(mp sync.Map, isU bool) bool := (forall k string :: in(mp, k) ==> (ite(isU, isType(mp[k], *atomic.Uint64), isType(mp[k], *atomic.Int64)) && toInt(asPtr(mp[k], *atomic.Uint64)) > 0)) && (forall a string, b string :: in(mp, a) && in(mp, b) && a != b ==> toInt(asPtr(mp[a], *atomic.Uint64)) != toInt(asPtr(mp[b], *atomic.Uint64)))
+//@ objinv metrics.MultiMetrics cells : cellsOK(this.counters, true) && cellsOK(this.gauges, true) && cellsOK(this.stores, true) && cellsOK(this.updowns, false)
+//@ spec disjointCells(x sync.Map, y sync.Map) bool := forall a string, b string :: in(x, a) && in(y, b) ==> toInt(asPtr(x[a], *atomic.Uint64)) != toInt(asPtr(y[b], *atomic.Uint64))
+//@ objinv metrics.MultiMetrics disjoint : disjointCells(this.counters, this.gauges) && disjointCells(this.counters, this.stores) && disjointCells(this.gauges, this.stores)
+//@ objinv metrics.MultiMetrics types : forall k string :: in(this.metricTypes, k) ==> isType(this.metricTypes[k], MetricType)
+
+//@ contract metrics.(*MultiMetrics).Increment props C33
+//@   arith math
+//@   requires m != nil
+//@   ensures[adds-one] cval(m, name) == old(cval(m, name)) + 1
+//@   ensures[other-counters-untouched] forall n string :: n != name ==> cval(m, n) == old(cval(m, n))
+//@   ensures[other-kinds-untouched] forall n string :: uval(m, n) == old(uval(m, n)) && gbits(m, n) == old(gbits(m, n)) && sbits(m, n) == old(sbits(m, n))
+//@   modifies m.counters, *asPtr(old(m.counters)[name], *atomic.Uint64)
+
+//@ contract metrics.(*MultiMetrics).Count props C33
+//@   arith math
+//@   requires m != nil
+//@   requires n >= 0
+//@   ensures[adds-n] toInt(cval(m, name)) == toInt(old(cval(m, name))) + toInt(n)
+//@   ensures[other-counters-untouched] forall k string :: k != name ==> cval(m, k) == old(cval(m, k))
+//@   ensures[other-kinds-untouched] forall k string :: uval(m, k) == old(uval(m, k)) && gbits(m, k) == old(gbits(m, k)) && sbits(m, k) == old(sbits(m, k))
+//@   modifies m.counters, *asPtr(old(m.counters)[name], *atomic.Uint64)
+
+//@ contract metrics.(*MultiMetrics).Gauge props C33
+//@   requires m != nil
+//@   ensures[last-value] math.Float64frombits(gbits(m, name)) == val
+//@   ensures[other-gauges-untouched] forall k string :: k != name ==> gbits(m, k) == old(gbits(m, k))
+//@   ensures[other-kinds-untouched] forall k string :: uval(m, k) == old(uval(m, k)) && cval(m, k) == old(cval(m, k)) && sbits(m, k) == old(sbits(m, k))
+//@   modifies m.gauges, *asPtr(old(m.gauges)[name], *atomic.Uint64)
+
+//@ contract metrics.(*MultiMetrics).Store props C33
+//@   requires m != nil
+//@   ensures[last-value] math.Float64frombits(sbits(m, name)) == val
+//@   ensures[other-stores-untouched] forall k string :: k != name ==> sbits(m, k) == old(sbits(m, k))
+//@   ensures[other-kinds-untouched] forall k string :: uval(m, k) == old(uval(m, k)) && cval(m, k) == old(cval(m, k)) && gbits(m, k) == old(gbits(m, k))
+//@   modifies m.stores, *asPtr(old(m.stores)[name], *atomic.Uint64)
+
+//@ contract metrics.(*MultiMetrics).Up props C33
+//@   arith math
+//@   requires m != nil
+//@   ensures[plus-one] uval(m, name) == old(uval(m, name)) + 1
+//@   ensures[other-updowns-untouched] forall k string :: k != name ==> uval(m, k) == old(uval(m, k))
+//@   ensures[other-kinds-untouched] forall k string :: cval(m, k) == old(cval(m, k)) && gbits(m, k) == old(gbits(m, k)) && sbits(m, k) == old(sbits(m, k))
+//@   modifies m.updowns, *asPtr(old(m.updowns)[name], *atomic.Int64)
+
+//@ contract metrics.(*MultiMetrics).Down props C33
+//@   arith math
+//@   requires m != nil
+//@   ensures[minus-one] uval(m, name) == old(uval(m, name)) - 1
+//@   ensures[other-updowns-untouched] forall k string :: k != name ==> uval(m, k) == old(uval(m, k))
+//@   ensures[other-kinds-untouched] forall k string :: cval(m, k) == old(cval(m, k)) && gbits(m, k) == old(gbits(m, k)) && sbits(m, k) == old(sbits(m, k))
+//@   modifies m.updowns, *asPtr(old(m.updowns)[name], *atomic.Int64)
+
+// Register may be called any number of times, in any order, by any component
+// (samplers and caches register lazily): it must not change any recorded value.
+//@ contract metrics.(*MultiMetrics).Register props C33
+//@   requires m != nil
+//@   ensures[counters-survive-registration] forall k string :: cval(m, k) == old(cval(m, k))
+//@   ensures[updowns-survive-registration] forall k string :: uval(m, k) == old(uval(m, k))
+//@   ensures[gauges-survive-registration] forall k string :: gbits(m, k) == old(gbits(m, k))
+//@   ensures[stores-survive-registration] forall k string :: sbits(m, k) == old(sbits(m, k))
+//@   ensures[type-recorded] in(m.metricTypes, metadata.Name) && asType(m.metricTypes[metadata.Name], MetricType) == metadata.Type
+//@   modifies m.counters, m.gauges, m.updowns, m.metricTypes
+
+//@ contract metrics.(*MultiMetrics).Get props C33
+//@   requires m != nil
+//@   let ty = asType(m.metricTypes[name], MetricType)
+//@   ensures[stored-constant] in(m.stores, name) ==> result1 && result0 == math.Float64frombits(sbits(m, name))
+//@   ensures[counter] !in(m.stores, name) && in(m.metricTypes, name) && ty == Counter && in(m.counters, name) ==> result1 && result0 == toReal(cval(m, name))
+//@   ensures[gauge] !in(m.stores, name) && in(m.metricTypes, name) && ty == Gauge && in(m.gauges, name) ==> result1 && result0 == math.Float64frombits(gbits(m, name))
+//@   ensures[updown] !in(m.stores, name) && in(m.metricTypes, name) && ty == UpDown && in(m.updowns, name) ==> result1 && result0 == toReal(uval(m, name))
+//@   ensures[unregistered-counter] !in(m.stores, name) && !in(m.metricTypes, name) && in(m.counters, name) ==> result1 && result0 == toReal(cval(m, name))
+//@   ensures[unknown] !in(m.stores, name) && !in(m.metricTypes, name) && !in(m.counters, name) && !in(m.gauges, name) && !in(m.updowns, name) ==> !result1
+//@   modifies nothing
